@@ -1144,7 +1144,9 @@ func (f *Frame) execBinOp(st *State, x *ssa.BinOp) Value {
 	case token.SUB:
 		return VT{vc.wrap1(B.Sub(at.T, bt.T), bits, signed)}
 	case token.MUL:
-		return VT{vc.wrap(B.Mul(at.T, bt.T), bits, signed)}
+		pr := B.Mul(at.T, bt.T)
+		vc.noteProduct(at.T, bt.T, pr)
+		return VT{vc.wrap(pr, bits, signed)}
 	case token.QUO, token.REM:
 		if f.safety() {
 			f.oblige(st, "div", x.Name(), "divisor is not zero", x.Pos(), B.Ne(bt.T, B.Int(0)), nil)
